@@ -10,6 +10,8 @@ import CtyModel.Lemmas.SetRefineRun
 import CtyModel.Lemmas.SetFnsTie
 import CtyModel.Lemmas.ValEqRules
 import CtyModel.Lemmas.ValEqSymm
+import CtyModel.Lemmas.d03bLess
+import CtyModel.Lemmas.d03bCaps
 namespace CtyModel
 namespace C03
 
@@ -1006,6 +1008,268 @@ example :
     simp [rawB, h]
   · exact (List.Perm.cons _ (List.Perm.swap _ _ _)).trans (List.Perm.swap _ _ _) |>.trans
       (List.Perm.cons _ (List.Perm.refl _)) |>.symm |>.symm
+
+
+/-! ########################################################################
+### d03b — second deepening: the hash TEXT, compound members, capsule types
+
+New vocabulary (`SetRulesD03b.lean`, evaluated by the driver on the generated
+values): `Value.sameShape` — two values of one type differ at most in number
+leaves with the same hashed text (10 significant digits), in unknown leaves and in
+capsule leaves (what `harness/c03val.go c03SameShape` computes through the public
+API); `Ty.setFree` — no set type occurs (capsule types may);
+`Payload.numTextsOk` — every hashed number text is non-empty over `0-9.e+-Inf`
+(what `big.Float.String` writes; checked on every generated value);
+`Payload.tieFree` — any two members are `RawEquals` or have different hash texts.
+######################################################################## -/
+
+/-! #### injectivity of the hash text (strings, bools, nulls, structure) -/
+
+/-- **The set hash text is injective up to `sameShape`.**  Clause *"equal values
+have the same hash"* read backwards, as far as it can hold: two well-formed values
+of one set-free type whose `makeSetHashBytes` results coincide have the same
+structure, the same lengths, the same map keys, equal strings and bools, null in
+the same places — they can differ only in number leaves (same 10 digits),
+unknown leaves and capsule leaves.  The delimiters `; : [ ] { } < >` never occur
+unescaped inside a `%q`-quoted string (`D03b.quoteChars_prefix`), so this is a
+statement about the very function the `hash.bytes` correspondence diffs: writing
+strings unquoted (seeded/C03-string-hash-text-unescaped-quotes) breaks that
+correspondence AND contradicts this theorem (`["a","b"]` vs `["a\";\"b"]`). -/
+theorem hash_text_injective_setfree (t : Ty) (a b : Payload) (hw : t.wf = true) (hsf : t.setFree = true)
+    (wa : a.shaped t = true) (wb : b.shaped t = true) (na : a.numTextsOk = true) (nb : b.numTextsOk = true)
+    (h : Bytes) (ha : hashBytes ⟨t, a⟩ = .ok h) (hb : hashBytes ⟨t, b⟩ = .ok h) :
+    Value.sameShape ⟨t, a⟩ ⟨t, b⟩ = true :=
+  D03b.sameShape_of_hashBytes_eq hw hsf wa wb na nb ha hb
+
+/-- …contrapositive: values that are not `sameShape` never share a hash text (they
+may still share the 32-bit `Hash`; `Equivalent` then tells them apart). -/
+theorem different_shape_different_hash_text (t : Ty) (a b : Payload) (hw : t.wf = true) (hsf : t.setFree = true)
+    (wa : a.shaped t = true) (wb : b.shaped t = true) (na : a.numTextsOk = true) (nb : b.numTextsOk = true)
+    (hne : Value.sameShape ⟨t, a⟩ ⟨t, b⟩ = false) (h : Bytes) (ha : hashBytes ⟨t, a⟩ = .ok h) :
+    hashBytes ⟨t, b⟩ ≠ .ok h := by
+  intro hb
+  rw [hash_text_injective_setfree t a b hw hsf wa wb na nb h ha hb] at hne
+  cases hne
+
+/-- the seeded collision pair: a list of two strings and a list of one string that
+spells the delimiter — not `sameShape`, so their hash texts differ -/
+example : hashBytes ⟨.list .string, .seq [.s "a", .s "b"]⟩ = .ok (strBytes "[\"a\";\"b\";]") ∧
+    hashBytes ⟨.list .string, .seq [.s "a\";\"b"]⟩ ≠ .ok (strBytes "[\"a\";\"b\";]") :=
+  ⟨by decide +kernel, different_shape_different_hash_text (.list .string) (.seq [.s "a", .s "b"]) (.seq [.s "a\";\"b"])
+    rfl rfl (by decide +kernel) (by decide +kernel) (by decide +kernel) (by decide +kernel) (by decide +kernel) _
+    (by decide +kernel)⟩
+
+/-- the hypotheses are jointly satisfiable by a nested value with marks, a capsule,
+a null, an unknown, a non-integer number and escapes; and `sameShape` does relate
+different values: the tuples of `set_order_counterexample` (numbers that agree in
+10 digits) and two differently refined unknowns -/
+example : Ty.setFree (.object ["a", "b"] [.map (.tuple [.number, .capsule 1]), .list .string] []) = true ∧
+    Payload.shaped (.object ["a", "b"] [.map (.tuple [.number, .capsule 1]), .list .string] [])
+      (.smap ["a", "b"] [.smap ["k\"", "l"] [.seq [.n w5f, .caps], .null], .seq [.marked ["m"] (.s ";"), .unk (.str .f "x")]]) = true ∧
+    Payload.numTextsOk (.smap ["a", "b"] [.smap ["k\"", "l"] [.seq [.n w5f, .caps], .null], .seq [.marked ["m"] (.s ";"), .unk (.str .f "x")]]) = true ∧
+    Value.sameShape ⟨w6T, w6a⟩ ⟨w6T, w6b⟩ = true ∧
+    Value.sameShape ⟨.list .string, .seq [.unk .unref]⟩ ⟨.list .string, .seq [.unk (.str .f "x")]⟩ = true ∧
+    Value.sameShape ⟨.list .string, .seq [.s "a", .s "b"]⟩ ⟨.list .string, .seq [.s "a\";\"b"]⟩ = false := by
+  decide +kernel
+
+/-! #### sets of COMPOUND members: `Less`, iteration order, and what a tie can be -/
+
+/-- the members: `intMember` (well-formed, wholly known, mark-free, integer numbers
+at any precisions) whose strings the model can quote -/
+def QMember (e : Ty) : Type := { p : Payload // p.intMember e = true ∧ p.quotable = true }
+
+/-- `setRules{e}` restricted to those members (the very functions of `ctyRules e`) -/
+def ctyRulesOnQ (e : Ty) : Rules (QMember e) where
+  hash := fun p => (ctyRules e).hash p.1
+  equiv := fun a b => (ctyRules e).equiv a.1 b.1
+  less := (ctyRules e).less.map fun l a b => l a.1 b.1
+
+theorem cty_rules_lawful_q (e : Ty) (hw : e.wf = true) (hp : e.plain = true) : (ctyRulesOnQ e).Lawful := by
+  have sp := fun a : QMember e => Payload.intMember_spec a.2.1
+  have eqv : ∀ a b : QMember e, (ctyRulesOnQ e).equiv a b = rawB e a.1 b.1 := fun a b =>
+    ctyRules_equiv_eq hw hp (sp a).1 (sp a).2.1 (sp a).2.2.1 (sp b).1 (sp b).2.1 (sp b).2.2.1
+  refine ⟨fun a => ?_, fun a b h => ?_, fun a b c h1 h2 => ?_, fun a b h => ?_⟩
+  · rw [eqv]; exact rawB_refl e a.1 hp (sp a).1
+  · rw [eqv] at h ⊢; rw [rawB_symm e b.1 a.1 hp (sp b).1 (sp a).1]; exact h
+  · rw [eqv] at h1 h2 ⊢; exact rawB_trans e a.1 b.1 c.1 hp (sp a).1 (sp b).1 (sp c).1 h1 h2
+  · rw [eqv] at h
+    exact ctyRules_hash_eq_ints hp a.2.1 b.2.1 h
+
+/-- **`setRules.Less` never fails on members of a compound element type** (list,
+map, tuple, object — set-free, capsule-free) and is decided by the specification
+`D03b.compLessB`: not `RawEquals`; null after non-null; otherwise the byte order
+of the two hash texts.  `ctyRules.less` is what it returns (no default taken). -/
+theorem setLess_total_compound (e : Ty) (hw : e.wf = true) (hp : e.plain = true) (hc : e.isPrim = false)
+    (x y : QMember e) :
+    setLess e x.1 y.1 = .ok (D03b.compLessB e x.1 y.1) ∧ ctyLessB e x.1 y.1 = D03b.compLessB e x.1 y.1 := by
+  have h := D03b.ctyLessB_comp hw hp hc x.2 y.2
+  exact ⟨by rw [h.1, h.2], h.2⟩
+
+/-- **`setRules.Less` is a strict order on compound members, total between
+inequivalent members of a tie-free list** — the hypothesis of
+`values_order_indep_of_total` discharged for cty's rules beyond primitive element
+types.  `Payload.tieFree` is decidable and is exactly what fails in the recorded
+finding less-tied-inequivalent-members (`set_order_counterexample`). -/
+theorem cty_less_strict_total_compound (e : Ty) (hw : e.wf = true) (hp : e.plain = true) (hc : e.isPrim = false)
+    (l : List (QMember e)) (htf : Payload.tieFree e (l.map (·.1)) = true) :
+    (ctyRulesOnQ e).less = some (fun a b => ctyLessB e a.1 b.1) ∧
+    SetImpl.StrictTotalOn (ctyRulesOnQ e) (fun a b => ctyLessB e a.1 b.1) l := by
+  have st := D03b.compLessB_strictTotal hp (l.map (·.1))
+    (fun p hm => by obtain ⟨a, _, rfl⟩ := List.mem_map.mp hm; exact a.2)
+    (D03b.tieFree_spec hw hp
+      (fun p hm => by obtain ⟨a, _, rfl⟩ := List.mem_map.mp hm; exact (Payload.intMember_spec a.2.1).1) htf)
+  have hl : ∀ a b : QMember e, ctyLessB e a.1 b.1 = D03b.compLessB e a.1 b.1 := fun a b =>
+    (D03b.ctyLessB_comp hw hp hc a.2 b.2).2
+  have mem : ∀ a ∈ l, a.1 ∈ l.map (·.1) := fun a ha => List.mem_map_of_mem ha
+  have sp := fun a : QMember e => Payload.intMember_spec a.2.1
+  refine ⟨rfl, fun a ha => ?_, fun a ha b hb c hc' h1 h2 => ?_, fun a ha b hb hne => ?_⟩
+  · rw [hl]; exact st.1 _ (mem a ha)
+  · rw [hl] at h1 h2 ⊢; exact st.2.1 _ (mem a ha) _ (mem b hb) _ (mem c hc') h1 h2
+  · rw [hl, hl]
+    have : (ctyRulesOnQ e).equiv a b = rawB e a.1 b.1 :=
+      ctyRules_equiv_eq hw hp (sp a).1 (sp a).2.1 (sp a).2.2.1 (sp b).1 (sp b).2.1 (sp b).2.2.1
+    rw [this] at hne
+    exact st.2.2 _ (mem a ha) _ (mem b hb) hne
+
+/-- **Value-level iteration order for compound members.**  Two sets of lists, maps,
+tuples or objects (of strings, bools, integers, nulls) that hold the same tie-free
+members — whatever the insertion order, bucket layout or history — iterate
+identically. -/
+theorem valueSet_iteration_order_indep_compound (e : Ty) (hw : e.wf = true) (hp : e.plain = true)
+    (hc : e.isPrim = false) {s1 s2 : SetImpl (QMember e)} (h1 : SetImpl.Inv (ctyRulesOnQ e) s1)
+    (hperm : (SetImpl.values s1).Perm (SetImpl.values s2))
+    (htf : Payload.tieFree e ((SetImpl.values s1).map (·.1)) = true) :
+    SetImpl.iter (ctyRulesOnQ e) s1 = SetImpl.iter (ctyRulesOnQ e) s2 := by
+  have h := cty_less_strict_total_compound e hw hp hc (SetImpl.values s1) htf
+  simp only [SetImpl.iter, h.1]
+  exact values_order_indep_of_total _ h1 hperm h.2
+
+/-- …in particular sets built from the same pairwise different tie-free inputs in any order. -/
+theorem valueSet_insertion_order_indep_compound (e : Ty) (hw : e.wf = true) (hp : e.plain = true)
+    (hc : e.isPrim = false) {l l' : List (QMember e)} (hl : SetImpl.Inequiv (ctyRulesOnQ e) l) (hperm : l.Perm l')
+    (htf : Payload.tieFree e (l.map (·.1)) = true) :
+    SetImpl.iter (ctyRulesOnQ e) (SetImpl.fromList (ctyRulesOnQ e) l) =
+      SetImpl.iter (ctyRulesOnQ e) (SetImpl.fromList (ctyRulesOnQ e) l') := by
+  have h := cty_less_strict_total_compound e hw hp hc l htf
+  have hR := cty_rules_lawful_q e hw hp
+  simp only [SetImpl.iter, h.1]
+  exact values_order_indep_of_insertion hR _ hl hperm h.2
+
+/-- **What a `Less` tie can be** (the classification `c03TieExplained` of the
+harness, proved): two compound members that are not `Equals` and that
+`setRules.Less` orders neither way are `sameShape` — same structure, strings,
+bools and nulls; they differ only in number leaves that agree in 10 significant
+digits.  So the recorded finding less-tied-inequivalent-members has no other
+cause on set-free capsule-free wholly known members. -/
+theorem less_tie_explained (e : Ty) (hw : e.wf = true) (hp : e.plain = true) (hsf : e.setFree = true)
+    (hc : e.isPrim = false) (x y : QMember e) (nx : x.1.numTextsOk = true) (ny : y.1.numTextsOk = true)
+    (hne : (ctyRulesOnQ e).equiv x y = false) (h1 : ctyLessB e x.1 y.1 = false) (h2 : ctyLessB e y.1 x.1 = false) :
+    Value.sameShape ⟨e, x.1⟩ ⟨e, y.1⟩ = true := by
+  have sp := fun a : QMember e => Payload.intMember_spec a.2.1
+  have : (ctyRulesOnQ e).equiv x y = rawB e x.1 y.1 :=
+    ctyRules_equiv_eq hw hp (sp x).1 (sp x).2.1 (sp x).2.2.1 (sp y).1 (sp y).2.1 (sp y).2.2.1
+  rw [this] at hne
+  rw [(D03b.ctyLessB_comp hw hp hc x.2 y.2).2] at h1
+  rw [(D03b.ctyLessB_comp hw hp hc y.2 x.2).2] at h2
+  exact D03b.tie_sameShape hw hp hsf x.2 y.2 nx ny hne h1 h2
+
+/-- a tie-free list of tuples (strings, integers at two precisions, a null member);
+the tied pair of `set_order_counterexample` is not tie-free, is `sameShape`, and
+`less_tie_explained` applies to it -/
+example : Payload.tieFree (.tuple [.string, .number])
+      [.seq [.s "a", .n (Num.ofInt 1 64)], .seq [.s "a", .n (.fin false 1 70 53)], .null, .seq [.s "b;", .null]] = true ∧
+    Payload.tieFree w6T [w6a, w6b] = false ∧ Payload.intMember w6T w6a = true ∧ Payload.intMember w6T w6b = true ∧
+    Value.sameShape ⟨w6T, w6a⟩ ⟨w6T, w6b⟩ = true := by decide +kernel
+
+/-! #### capsule types: the `Equals` / `HashKey` parameters instantiated -/
+
+/-- **`setRules` of a capsule type meet the contract of `cty/set`** whenever the
+type's `Equals` (else `RawEquals`, else pointer identity) is an equivalence and
+capsules it equates have the same `HashKey` (or there is no `HashKey`) —
+`CapsuleOps.rules` follows the capsule branches of `Value.Equals`
+(value_ops.go:379) and `appendSetHashBytes` (set_internals.go:255). -/
+theorem capsule_rules_lawful (ops : CapsuleOps) (h : ops.Lawful) : ops.rules.Lawful :=
+  CapsuleOps.rules_lawful h
+
+/-- …so every history of `ValueSet` calls over capsule values refines mathematical
+sets (`set_refines`, `set_inv` at these rules). -/
+theorem capsule_valueSet_refines (ops : CapsuleOps) (h : ops.Lawful) (hist : List (SetOp Nat)) (st : List (SetImpl Nat))
+    (hi : ∀ i, SetImpl.Inv ops.rules (SetImpl.getReg st i)) :
+    (∀ i, SetImpl.Inv ops.rules (SetImpl.getReg (SetImpl.runRegs ops.rules hist st).1 i)) ∧
+    SetImpl.absRegs ops.rules (SetImpl.runRegs ops.rules hist st).1 =
+      SetImpl.specRun ops.rules hist (SetImpl.absRegs ops.rules st) ∧
+    SetImpl.OutsOk ops.rules (SetImpl.absRegs ops.rules st) hist (SetImpl.runRegs ops.rules hist st).2 :=
+  have hR := capsule_rules_lawful ops h
+  ⟨set_inv hR hist st hi, set_refines hR hist st hi⟩
+
+/-- the two lawful instances: no operations at all (pointer identity, one hash for
+every capsule), and `Equals` = "same key" with `HashKey` = that key -/
+theorem capsule_lawful_instances (k : Nat → String) :
+    CapsuleOps.plainOps.Lawful ∧ CapsuleOps.plainOps.valid = true ∧ (CapsuleOps.keyedOps k).Lawful ∧
+      (CapsuleOps.keyedOps k).KeyInjective ∧ (CapsuleOps.keyedOps k).valid = true :=
+  ⟨CapsuleOps.plainOps_lawful, rfl, CapsuleOps.keyedOps_lawful k, CapsuleOps.keyedOps_injective k, rfl⟩
+
+/-- **`Less` on capsules is a strict order, total between inequivalent capsules**,
+when moreover the hash key separates inequivalent capsules ("`HashKey` injective up
+to `Equals`"), `RawEquals` agrees with `Equals`, and the keys are quotable — then a
+set of capsules iterates in an order that depends only on its members. -/
+theorem capsule_iteration_order_indep (ops : CapsuleOps) (h : ops.Lawful) (hi : ops.KeyInjective)
+    (hr : ∀ a b, ops.rawEqv a b = ops.eqv a b) (hq : ∀ a, ∃ x, ops.hashText a = .ok x) {s1 s2 : SetImpl Nat}
+    (h1 : SetImpl.Inv ops.rules s1) (hperm : (SetImpl.values s1).Perm (SetImpl.values s2)) :
+    SetImpl.StrictTotalOn ops.rules ops.lessB (SetImpl.values s1) ∧
+    SetImpl.iter ops.rules s1 = SetImpl.iter ops.rules s2 := by
+  have ht := CapsuleOps.less_strictTotal h hi hr hq (SetImpl.values s1)
+  refine ⟨ht, ?_⟩
+  simp only [SetImpl.iter, CapsuleOps.rules]
+  exact values_order_indep_of_total _ h1 hperm ht
+
+/-- the full-strength clauses for capsule types: lawful whatever the callbacks;
+iteration order a function of the members -/
+def CapsuleRulesLawful : Prop := ∀ ops : CapsuleOps, ops.rules.Lawful
+def CapsuleOrderIndependent : Prop :=
+  ∀ (ops : CapsuleOps) (l l' : List Nat), ops.Lawful → l.Perm l' →
+    SetImpl.iter ops.rules (SetImpl.fromList ops.rules l) = SetImpl.iter ops.rules (SetImpl.fromList ops.rules l')
+
+/-- **What breaks otherwise (1).**  A `HashKey` FINER than `Equals` (every capsule
+equal, two different keys): the rules are not lawful, and the set built from
+capsules 0 and 1 holds both although they are `Equals`. -/
+theorem capsule_hashkey_finer_counterexample :
+    let ops := CapsuleOps.finerKeyOps
+    ops.valid = true ∧ ops.eqv 0 1 = true ∧ ops.rules.hash 0 ≠ ops.rules.hash 1 ∧
+    SetImpl.values (SetImpl.fromList ops.rules [0, 1]) = [1, 0] ∧ ¬ ops.rules.Lawful := by
+  refine ⟨rfl, by decide +kernel, by decide +kernel, by decide +kernel, fun h => ?_⟩
+  exact absurd (h.hash_eq 0 1 (by decide +kernel)) (by decide +kernel)
+
+theorem capsule_rules_lawful_false : ¬ CapsuleRulesLawful :=
+  fun h => capsule_hashkey_finer_counterexample.2.2.2.2 (h _)
+
+/-- **What breaks otherwise (2).**  Without a `HashKey` every capsule has the hash
+text `«?»`: the rules are lawful, but `Less` orders no two capsules, all share one
+bucket, and iteration order is insertion order (the property statement excludes
+capsule members from the iteration-order clause for this reason). -/
+theorem capsule_order_counterexample :
+    let ops := CapsuleOps.plainOps
+    ops.Lawful ∧ ops.lessB 1 2 = false ∧ ops.lessB 2 1 = false ∧
+    SetImpl.iter ops.rules (SetImpl.fromList ops.rules [1, 2]) = [1, 2] ∧
+    SetImpl.iter ops.rules (SetImpl.fromList ops.rules [2, 1]) = [2, 1] := by
+  refine ⟨CapsuleOps.plainOps_lawful, ?_, ?_, ?_, ?_⟩ <;> decide +kernel
+
+theorem capsule_order_independent_false : ¬ CapsuleOrderIndependent := by
+  intro h
+  have c := capsule_order_counterexample
+  have := h CapsuleOps.plainOps [1, 2] [2, 1] c.1 (List.Perm.swap _ _ [])
+  rw [c.2.2.2.1, c.2.2.2.2] at this
+  cases this
+
+/-- the keyed instance satisfies every hypothesis of `capsule_iteration_order_indep`
+(keys "k0", "k1" by parity) -/
+example : let ops := CapsuleOps.keyedOps fun a => if a % 2 == 0 then "k0" else "k1"
+    ops.Lawful ∧ ops.KeyInjective ∧ (∀ a b, ops.rawEqv a b = ops.eqv a b) ∧ (∀ a, ∃ x, ops.hashText a = .ok x) := by
+  refine ⟨CapsuleOps.keyedOps_lawful _, CapsuleOps.keyedOps_injective _, fun a b => rfl, fun a => ?_⟩
+  simp only [CapsuleOps.hashText, CapsuleOps.keyedOps]
+  by_cases h : (a % 2 == 0) = true
+  · rw [if_pos h]; exact app_ok ⟨_, rfl⟩ (app_ok (ok_of_isOk (by decide +kernel)) ⟨_, rfl⟩)
+  · rw [if_neg h]; exact app_ok ⟨_, rfl⟩ (app_ok (ok_of_isOk (by decide +kernel)) ⟨_, rfl⟩)
 
 end Values
 /-! ######################## end of SECTION «values» ######################## -/
